@@ -39,7 +39,7 @@ def extra_phase(tier, seed, exes, oracle):
         "evaluations": 0,
         "hist": {"translator_c04_r3:RatioBodies:" + word: 1},
         "nontrivial": [],
-        "samples": [{"fragment": "coq/gen/RatioBodies.v (tools/translate_c04_r3.py from rational/src/{repr,rbig,add,mul,div}.rs, lib.rs)",
+        "samples": [{"fragment": "coq/gen/RatioBodies.v (tools/translate_c04_r3.py from rational/src/{repr,rbig,sign,round,add,mul,div,helper_macros,lib}.rs)",
                      "status": BODIES_STATUS,
                      "tied_by": "C04_gen_* theorems (stated over the generated definitions)" if word == "ok"
                      else "correspondence run only (source not parsed; committed copy marked STALE)"}],
@@ -54,33 +54,47 @@ HARNESS_BIN = "c04"
 NCASES = {"quick": 9000, "thorough": 200000}
 CASE_TIMEOUT = {"quick": 30, "thorough": 120}
 
-LEVEL_TEXT = ("Machine-checked Coq theorems for all operands (no size bound): the transcriptions of every RBig operation of "
-              "add.rs/mul.rs/div.rs/repr.rs/rbig.rs/sign.rs/round.rs (gcd-hint reduction of + and -, cross-gcd reduction of * and /, "
-              "centred and Euclidean remainders, integer-mixed forms, inv/sqr/cubic/pow, constructors incl. the const gcd loop with its fuel "
-              "bound) return exactly the canonical representative of the mathematical rational (stated in Coq's Q), preserve "
-              "'denominator > 0, gcd = 1, zero = 0/1', and do so along every finite history of operations over a pool of values "
-              "(induction over the operation list); the Relaxed transcriptions return a positive denominator and the same value in Q, "
-              "panic exactly when RBig does, and never keep a common factor two (reduce2 removes all of them; also along histories). "
-              "The transcriptions are tied to the Rust code by a correspondence run judged by the extracted specification.")
-LEVEL_NOTE = ("Trusted: Coq kernel, the hand transcription of the macro bodies (tied by the correspondence run only; not regenerated), "
-              "extraction incl. FastZ.v directives, zarith, the harness. IBig/UBig enter through their Z-level specifications "
-              "(+,-,*, truncating / and %, Euclidean forms, gcd, trailing_zeros, >>), which are C01/C02/C09/C12's subject.")
-TECHNIQUE = "Coq proof of as-is model = canonical exact rational (+ invariant over histories) + extracted-spec correspondence run"
+LEVEL_TEXT = ("Machine-checked Coq theorems for all operands (no size bound). (i) The bodies of rational/src/{repr,rbig,sign,round,add,mul,div}.rs "
+              "are REGENERATED from the Rust source on every run (coq/gen/RatioBodies.v: Repr::reduce/reduce_with_hint/reduce2/neg/abs/sqr/cubic/pow/inv/"
+              "split_at_point/ceil/floor/trunc/fract/round, from_parts/from_parts_signed, signum, `* Sign`, is_zero/is_one/is_int, and every operator "
+              "macro body once per impl_binop_with_macro!/impl_binop_with_int! invocation, so the wiring of trait x operand type x macro x method is "
+              "regenerated too); the C04_gen_* theorems state over these GENERATED definitions that every RBig operation returns exactly the canonical "
+              "representative of the mathematical rational (stated in Coq's Q), keeps 'denominator > 0, gcd = 1, zero = 0/1', panics exactly on a zero "
+              "divisor, and does so along every finite history of operations (induction over the operation list); that every Relaxed operation returns a "
+              "positive denominator and the same value, in lock step with RBig along every history, and never keeps a common factor two. "
+              "(ii) Repr::reduce2 is additionally modelled on the typed magnitudes (inline double word / heap word list, any word size: word scan for "
+              "trailing_zeros, shr with carries, floor correction for a negative numerator) and proved equal to the value-level body. "
+              "(iii) Hand transcriptions proved for all inputs: the const gcd loop of from_parts_const with its fuel bound, the parsers, the exact "
+              "conversions (integers: n/1; f32/f64 from the decoded mantissa/exponent on: reduce2 of a dyadic is the canonical form). "
+              "All models are tied to the Rust code by a correspondence run judged by the extracted specification.")
+LEVEL_NOTE = ("Trusted: Coq kernel; tools/translate_c04_r3.py (its reading of the integer-layer atoms, listed in TRUSTED_BASE); the hand transcriptions of "
+              "from_parts_const, the parsers and convert.rs (tied by the correspondence run only); extraction incl. FastZ.v directives, zarith, the harness. "
+              "IBig/UBig enter through their Z-level specifications (+,-,*, truncating / and %, Euclidean forms, gcd, trailing_zeros, >>), which are "
+              "C01/C02/C09/C12's subject; f32/f64 decode is C06's. rational/src/iter.rs is not a module of the crate (no Sum/Product to cover: "
+              "re-read on every run, C04_iter_rs_is_not_a_module); there are no primitive-integer operand forms (only UBig/IBig: impl_binop_with_int).")
+TECHNIQUE = ("Coq proof over bodies regenerated from the Rust source: generated body = canonical exact rational + invariant (single operations and all "
+             "finite histories) + extracted-spec correspondence run")
 RULE = ("cases = operation (every RBig and Relaxed operator in each value/reference/assign call form, Euclidean forms, integer-mixed "
         "forms both ways with UBig and IBig, neg/abs/signum/inv/sqr/cubic/pow/Sign product, from_parts/_signed/_const, canonicalize/relax, "
-        "split/fract/trunc/floor/ceil/round, parsers with zero denominators) x operands whose numerators and denominators are drawn from "
+        "split/fract/trunc/floor/ceil/round, is_zero/is_one/is_int, From<integers>, TryFrom<f32/f64> over every float class, parsers with zero "
+        "denominators) x operands whose numerators and denominators are drawn from "
         "word-count classes {0,1,2,3,4,5,8,T-1,T,T+1} x bit patterns x both signs, with common factors planted in all six positions "
         "(a-b, c-d, a-d, b-c, b-d, a-c), zero numerators, integers, equal / negated / reciprocal operands, exact ties of the centred "
         "remainder; histories = 1..40 operations over a pool of 4 values with results fed back (RBig and Relaxed in lock step, "
         "panicking steps included). A case is non-trivial when the oracle evaluated the Coq specification on it; distinct = distinct case texts.")
-EXPLANATION = ("Theorems (coq/props/C04.v) are about the Gallina transcriptions in coq/theories/Ratio/RatArithModel.v. Tie to the code: "
-               "every implementation answer (numerator()/denominator() read through raw words) is compared with the extracted "
-               "specification; RBig answers must be the canonical pair itself, Relaxed answers the same value with a positive denominator; "
-               "the as-is models are compared too (model_fidelity).")
+EXPLANATION = ("Theorems (coq/props/C04.v): the C04_gen_* statements are about the definitions of coq/gen/RatioBodies.v, which "
+               "tools/translate_c04_r3.py re-reads from rational/src on every run (an edited macro body, a re-wired invocation or a removed impl "
+               "breaks a proof obligation; unparseable source is reported and falls back to the last good copy + correspondence run); the remaining "
+               "statements are about the hand transcriptions in coq/theories/Ratio/RatArithModel.v, which are proved EQUAL to the generated bodies "
+               "(C04_gen_bodies_are_the_transcriptions). Tie to the code at run time: every implementation answer (numerator()/denominator() read "
+               "through raw words) is compared with the extracted specification; RBig answers must be the canonical pair itself, Relaxed answers "
+               "the same value with a positive denominator; the hand transcription AND the generated body (and, for Relaxed::from_parts, the "
+               "64-bit word-level reduce2) must all predict the answer (model_fidelity).")
 TRUSTED_BASE = [
     "Coq 8.16.1 kernel (coqc, full .vo build); no axioms",
-    "hand transcription of rational/src/{repr,add,mul,div,rbig,sign,round,parse}.rs into coq/theories/Ratio/RatArithModel.v (compared with the code on every run, not regenerated)",
-    "IBig/UBig operations are taken at their Z-level specification: Z.add/sub/mul, Z.quot/Z.rem, Euclidean div/rem, Z.gcd, trailing_zeros, Z.shiftr, Z.pow",
+    "tools/translate_c04_r3.py (reuses the tokenizer/parser of tools/translate.py): reads rational/src/{repr,rbig,sign,round,add,mul,div,helper_macros,lib}.rs into coq/gen/RatioBodies.v at plug-in import. Hand-written semantics of the atoms: IBig/UBig + - * = Z.add/sub/mul, `/` = Z.quot and `%` = Z.rem (pure: the divisors are gcds / denominators, non-zero under the invariant), gcd = Z.gcd, is_zero/is_one = `=? 0/1`, sign() = sign_of, abs/unsigned_abs = Z.abs, signum = Z.sgn, `x * Sign` = x * sgnz, `-Sign` = sign_neg, into_parts = (sign_of, Z.abs), IBig::from_parts = signed, div_rem = (Z.quot, Z.rem), trailing_zeros = trailing_zeros_spec, >> << = Z.shiftr/shiftl, min = Z.min, sqr/cubic/pow = products / Z.pow, .into()/.clone()/& = identity, Repr {n, d} = the pair, RBig(..)/Relaxed(..) = Ok, panic_divide_by_0() = Panic DivideBy0, unwrap of None = Panic, the integer methods rem/rem_euclid/div_euclid/div_rem_euclid panic with DivideBy0 on a zero divisor (coq/theories/Ratio/RatioAtoms.v); `$impl!(a, b, c, d, ra, rb, rc, rd, $method)` passes references to the same values (checked syntactically; the ownership arms are C15's FormsRatGen)",
+    "hand transcription of from_parts_const (the while loop), parse.rs and convert.rs (From<integers>, TryFrom<f32/f64> from the decoded pair on) in coq/theories/Ratio/RatArithModel.v / RatioBodiesModel.v (compared with the code on every run, not regenerated); the f32/f64 bit decoding of the oracle driver (thin OCaml; decode itself is C06's subject)",
+    "IBig/UBig operations are taken at their Z-level specification: Z.add/sub/mul, Z.quot/Z.rem, Euclidean div/rem, Z.gcd, trailing_zeros, Z.shiftr, Z.pow; the word-level reduce2 uses C09's kernels (Int/BitsKernels.v) for trailing_zeros and >>",
     "extraction: ExtrOcamlBasic + ExtrOcamlZBigInt + the Extract Constant directives of coq/extract/FastZ.v (Z.gcd/quot/rem/pow/log2/sgn -> zarith)",
     "OCaml 4.13.1 + zarith 1.12, oracle/common.ml, oracle/driver_c04.ml; Rust harness harness/src/bin/c04.rs (catch_unwind per history step)",
     "props/C04.py renders the integers of parser cases as text with Python's int formatting",
@@ -436,6 +450,13 @@ def gen_cases(rng, tier, n):
             if rng.chance(1, 4):
                 single = rng.chance(1, 2)
                 out.append("%sfromf%s %x" % (T, "32" if single else "64", fbits(rng, single)))
+            elif rng.chance(1, 8):
+                v = rng.choice([0, 1, -1, (1 << 63) - 1, -(1 << 63), 1 << 63, (1 << 64) - 1, 1 << 64, (1 << 127) - 1, -(1 << 127),
+                                (1 << 128) - 1, 1 << 128, gnum(rng, tier), gnum(rng, tier)])
+                if rng.chance(1, 2):
+                    out.append("%sfromu %s" % (T, hx(abs(v))))
+                else:
+                    out.append("%sfromi %s" % (T, hx(v)))
             elif op == "from_parts" and T == "x" and rng.chance(1, 3):
                 out.append("xcanon %s %s" % (hx(n_), hx(d_)))
             elif op == "from_parts" and T == "r" and rng.chance(1, 4):
